@@ -493,3 +493,36 @@ where
     };
     newton_raphson_onesided(x0, f0, f1)
 }
+
+// ---------------------------------------------------------
+// verification hooks: read-only access to crate-private
+// barrier calculus (compiled only with --cfg clarabel_verif)
+// ---------------------------------------------------------
+#[cfg(clarabel_verif)]
+#[allow(missing_docs)]
+impl<T: FloatT> GenPowerCone<T> {
+    pub fn verif_is_primal_feasible(&self, s: &[T]) -> bool {
+        NonsymmetricCone::is_primal_feasible(self, s)
+    }
+    pub fn verif_is_dual_feasible(&self, z: &[T]) -> bool {
+        NonsymmetricCone::is_dual_feasible(self, z)
+    }
+    pub fn verif_barrier_primal(&mut self, s: &[T]) -> T {
+        NonsymmetricCone::barrier_primal(self, s)
+    }
+    pub fn verif_barrier_dual(&mut self, z: &[T]) -> T {
+        NonsymmetricCone::barrier_dual(self, z)
+    }
+    pub fn verif_update_dual_grad_H(&mut self, z: &[T]) {
+        NonsymmetricCone::update_dual_grad_H(self, z)
+    }
+    pub fn verif_gradient_primal(&self, s: &[T]) -> Vec<T> {
+        let mut g = vec![T::zero(); s.len()];
+        NonsymmetricNDCone::gradient_primal(self, &mut g, s);
+        g
+    }
+    /// stored dual gradient, stored z, d2
+    pub fn verif_state(&self) -> (Vec<T>, Vec<T>, T) {
+        (self.data.grad.clone(), self.data.z.clone(), self.data.d2)
+    }
+}
